@@ -25,7 +25,7 @@ def Range.contains (r : Range) (q : Dec) : Bool :=
 def textOf : J → Option Str
   | .num s => some s
   | .str s => some s
-  | .bool b => some (if b then "true".toList else "false".toList)
+  | .bool b => some (boolText b)
   | _ => none
 
 /-- the finite number a supplied scalar denotes -/
@@ -52,7 +52,7 @@ def scalarEq : Val → Val → Bool
 /-- `v` is the value of kind `k` that the text `s` denotes -/
 def textDenotes (k : Kind) (s : Str) (v : Val) : Bool :=
   match k with
-  | .float _ => match parseFloat 64 s with | .ok x => scalarEq (.flt x) v | .error _ => false
+  | .float _ => match floatSyntax s with | .ok x => scalarEq (.flt x) v | .error _ => false
   | _ => match convertFromString k s with | .ok v' => scalarEq v' v | .error _ => false
 
 /-- `v` is exactly the supplied scalar `x` at kind `k` -/
@@ -106,7 +106,7 @@ def fieldSat (c : Cfg) (name : Str) (tag : Option Str) (isSlice : Bool) (k : Opt
     | .ok (key, po) =>
       if key = "-".toList then isZ v
       else
-        let o : Opts := match po with | some o => o | none => {}
+        let o : Opts := effOpts po
         depOK o key m &&
         match getKey key m with
         | none =>
